@@ -132,6 +132,23 @@ def c20(tier, seed):
     ]
 
 
+def parse_gen(tier, label="Gen_Parse/strings+json"):
+    q = tier == "quick"
+    return GEN("Gen_Parse", dict(MaxLen=4 if q else 5, Alphabet="<-AlphaFull", Docs="<-DocsQuick" if q else "<-DocsFull"),
+               "parse", label=label, min_cases=50000)
+
+
+def c17(tier, seed):
+    q = tier == "quick"
+    mcc = dict(MaxLen=3, Alphabet="<-AlphaFull", Docs="<-DocsQuick" if q else "<-DocsFull", Groups="={}")
+    return [
+        MC("Gen_Parse", mcc, invariants=["RoundTrip", "NoPanic"], label="MC_Parse/roundtrip"),
+        parse_gen(tier),
+        TRACE("Trace_Parse", "parse", n=5000 if q else 100000, label="Trace_Parse/encoding-json-documents",
+              trace_file="trace_parse.ndjson"),
+    ]
+
+
 ASSUME_COMMON = [
     "the public-API observation (Unpack into map and slice, canonicalised) reads the abstract state faithfully",
     "TLC, the JVM, the Go toolchain and runtime",
@@ -151,6 +168,12 @@ NORM_RULE = ("Gen_Normalize: every ordered input of <= 3 entries over 5 overlapp
              "non-trivial = at least two entries; distinct by input")
 
 CHECKS = {
+    "C17": dict(stages=c17, family="parse",
+                rule="Gen_Parse: every character string of length <= 4 (quick) / 5 (thorough) over the 16-character alphabet "
+                     "[ ] { } , : \" ' \\ space z 9 - n t / under DefaultConfig, EnvConfig, NoopConfig and IgnoreCommas, plus JSON documents "
+                     "of a bounded grammar rendered compact and indented; Trace_Parse: random JSON documents written by encoding/json. "
+                     "non-trivial = at least two characters, one of them special; distinct by input text",
+                assumptions=ASSUME_COMMON + ["number tokens are concretised with strconv (the definition of the syntax) in the harness"]),
     "C20": dict(stages=c20, family="paths",
                 rule="Gen_Paths: 42 spellings (decimal, signs, 0x/0o/0b, leading zeros, underscores, +-2^63, 2^63, 2^64, near-numeric, "
                      "empty) x MaxIdx {0,2,5,1024} x EnableNumKeys x position (single, first, middle, last), each as map key, struct "
